@@ -89,6 +89,9 @@ OSetClass(F, st, x, v) ==
 \* e[k] = v for a spelling k of 'targetname' (the first spelling used is kept)
 OSetName(F, st, x, v, k) ==
     R(Upd(F, st, x, [st.ent[x] EXCEPT !.name = v, !.tk = IF @ = "" THEN k ELSE @]), "", "")
+\* e.setdefault(k, v): the name is set only when there is no such key
+OSetDefaultName(F, st, x, v, k) ==
+    IF st.ent[x].tk = "" THEN OSetName(F, st, x, v, k) ELSE R(st, "", "")
 \* e.update({'classname': v, k: n})
 OUpdate(F, st, x, v, n, k) ==
     LET r == OSetClass(F, st, x, v) IN IF r.exc # "" THEN r ELSE OSetName(F, r.s, x, n, k)
@@ -141,6 +144,7 @@ Apply(F, st, a) ==
       [] a.op = "ent_remove"  -> ORemoveEnt(F, st, a.x)
       [] a.op = "set_class"   -> OSetClass(F, st, a.x, a.v)
       [] a.op = "set_name"    -> OSetName(F, st, a.x, a.v, a.k)
+      [] a.op = "setdefault_name" -> OSetDefaultName(F, st, a.x, a.v, a.k)
       [] a.op = "update"      -> OUpdate(F, st, a.x, a.v, a.n, a.k)
       [] a.op = "del_name"    -> ODelName(F, st, a.x)
       [] a.op = "del_class"   -> ODelClass(F, st, a.x)
